@@ -474,5 +474,54 @@ def r10_json_spelling_in_style_serializers(chk: Check) -> None:
         chk.undecided("C06.R10", "<discovery>", f"sites={n}", "fewer delimiter-joined serializers than confirmed by hand")
 
 
+def r11_client_per_call(chk: Check) -> None:
+    chk.rule("C06.R11", "FRESH(client per call): a werkzeug / starlette test client and a requests session carry a cookie jar that fills from `Set-Cookie` responses; when the caller passes no session, each transport builds its OWN client for the call - the factory constructs the object in its body and is not memoised (lru_cache / cache / a module-level instance), otherwise the cookies of an earlier response ride on every later request", floor=3)
+    P = chk.project
+    MEMO = ("lru_cache", "cache", "cached", "memoize", "cached_property")
+    n = 0
+    for rel in ("transport/wsgi.py", "transport/asgi.py"):
+        mod = P.module(rel)
+        for fn in mod.functions.values():
+            if fn.name != "send":
+                continue
+            for c in body_calls(fn):
+                if last_attr(c) != "get_client":
+                    continue
+                n += 1
+                construct = f"{fn.qualname}: {unparse(c.func)}() builds a new client"
+                base = c.func.value.id if isinstance(c.func, ast.Attribute) and isinstance(c.func.value, ast.Name) else None
+                target = P.maybe_func(f"python/{base}.py:get_client") if base else None
+                if target is None:
+                    chk.undecided("C06.R11", fn, construct, "factory not resolved", fn.loc(c))
+                    continue
+                decos = [unparse(d) for d in target.node.decorator_list]
+                memo = [d for d in decos if any(m in d for m in MEMO)]
+                rets = [r for r in walk_body(target.node) if isinstance(r, ast.Return)]
+                if memo:
+                    chk.violation("C06.R11", target, construct,
+                                  f"the factory is memoised (`@{memo[0]}`): every call without an explicit session shares ONE client and its cookie jar - a `Set-Cookie` of an earlier response is sent with every later case",
+                                  target.loc())
+                elif decos:
+                    chk.undecided("C06.R11", target, construct, f"unknown decorator `@{decos[0]}`", target.loc())
+                elif rets and all(isinstance(r.value, ast.Call) and isinstance(r.value.func, ast.Name) and r.value.func.id[:1].isupper() for r in rets):
+                    chk.ok("C06.R11", target, construct, f"returns {unparse(rets[0].value)}", target.loc(rets[0]))
+                elif rets and any(isinstance(r.value, (ast.Subscript, ast.Attribute)) or (isinstance(r.value, ast.Name) and not local_value(target, r.value.id)) for r in rets):
+                    chk.violation("C06.R11", target, construct, "the factory hands out an object that outlives the call (not constructed in its body)", target.loc(rets[0]))
+                else:
+                    chk.undecided("C06.R11", target, construct, "return expression not recognised as a constructor call", target.loc())
+    send = P.func("transport/requests.py:RequestsTransport.send")
+    news = [a for a in walk_body(send.node) if isinstance(a, ast.Assign) and unparse(a.value) == "requests.Session()"]
+    construct = "RequestsTransport.send: requests.Session() is created inside the call when no session is given"
+    if news:
+        n += 1
+        g = cfg_of(send, "plain")
+        guarded = all(known_conditions(g, g.stmt_nodes_containing(a)).get("session is None") is True for a in news)
+        chk.decide(guarded, "C06.R11", send, construct, "a session is created even when the caller passed one" if not guarded else "", send.loc(news[0]))
+    else:
+        chk.violation("C06.R11", send, construct, "no per-call session: the session (and its cookie jar) comes from somewhere that outlives the call", send.loc())
+    if n < 3:
+        chk.undecided("C06.R11", "<discovery>", f"sites={n}", "fewer client factories than confirmed by hand")
+
+
 def rules(tier: str) -> list:  # type: ignore[type-arg]
-    return [r1_registries, r2_content_type, r3_quote_all, r3b_template_ownership, r4_header_writers, r5_cookie_pair, r6_no_truthiness_rewrite, r7_sanitizer_on_copies, r8_worklist_pushes_elements, r9_merge_builds_new_container, r10_json_spelling_in_style_serializers, rfwd_forwarding]
+    return [r1_registries, r2_content_type, r3_quote_all, r3b_template_ownership, r4_header_writers, r5_cookie_pair, r6_no_truthiness_rewrite, r7_sanitizer_on_copies, r8_worklist_pushes_elements, r9_merge_builds_new_container, r10_json_spelling_in_style_serializers, r11_client_per_call, rfwd_forwarding]
